@@ -20,6 +20,7 @@ import (
 
 	"github.com/vicanso/pike/config"
 	"github.com/vicanso/pike/server"
+	"github.com/vicanso/pike/store"
 	"pgregory.net/rapid"
 
 	"verif/harness/internal/vstat"
@@ -36,6 +37,8 @@ type c18Op struct {
 type c18Scenario struct {
 	Keys  []string `json:"keys"`            // URIs
 	Hosts []string `json:"hosts,omitempty"` // Host header of each key (parallel to Keys; c18.test when absent)
+	// Store: both caches persist into a store whose delete takes a few milliseconds (as a remote store's would)
+	Store bool `json:"store,omitempty"`
 	Ops  []c18Op  `json:"ops"`
 }
 
@@ -52,7 +55,7 @@ var c18Addrs = [2]string{"127.0.0.5:0", "127.0.0.6:0"}
 var c18URIs = []string{"/plain", "/with%20space", "/q?a=1&b=2", "/q?a=1%26b=2", "/plus+sign?x=a+b", "/uni/%E2%9C%93?k=%C3%A9", "/pct%25", "/q?b=2&a=1", "/hash%23frag", "/semi;colon?x=y;z", "/eq=sign?=", "/q?a=1&b=2&"}
 
 func genC18e2e(t *rapid.T) c18Scenario {
-	sc := c18Scenario{}
+	sc := c18Scenario{Store: rapid.Bool().Draw(t, "store")}
 	n := rapid.IntRange(2, 4).Draw(t, "nKeys")
 	seen := map[string]bool{}
 	// the Host header is part of the key exactly as the client sent it
@@ -83,6 +86,9 @@ func genC18e2e(t *rapid.T) c18Scenario {
 		default:
 			op.K = "purge-during-fetch"
 			op.Cache = rapid.SampledFrom([]string{"", "c1", "c2"}).Draw(t, "cache")
+			if sc.Store && rapid.Bool().Draw(t, "underTraffic") {
+				op.K = "purge-under-traffic"
+			}
 		}
 		sc.Ops = append(sc.Ops, op)
 	}
@@ -113,8 +119,16 @@ func execC18e2e(sc c18Scenario) *vstat.Outcome {
 	c18Seq++
 	n := c18Seq
 	names := [2]string{fmt.Sprintf("c18a-%d", n), fmt.Sprintf("c18b-%d", n)}
+	storeURL := [2]string{}
+	if sc.Store {
+		for i := range names {
+			storeURL[i] = "verifmem://" + names[i]
+			store.VerifRegisterStore(storeURL[i], &slowDeleteStore{rtStore: rtStore{data: map[string]rtRec{}}, delay: 15 * time.Millisecond})
+			defer store.VerifUnregisterStore(storeURL[i])
+		}
+	}
 	cfg := &config.PikeConfig{
-		Caches:    []config.CacheConfig{{Name: names[0], Size: 1000, HitForPass: "5m"}, {Name: names[1], Size: 1000, HitForPass: "5m"}},
+		Caches:    []config.CacheConfig{{Name: names[0], Size: 1000, HitForPass: "5m", Store: storeURL[0]}, {Name: names[1], Size: 1000, HitForPass: "5m", Store: storeURL[1]}},
 		Upstreams: []config.UpstreamConfig{{Name: "c18up", Servers: []config.UpstreamServerConfig{{Addr: c18Up.URL()}}}},
 		Locations: []config.LocationConfig{{Name: "c18loc", Upstream: "c18up"}},
 		Servers: []config.ServerConfig{{Addr: c18Addrs[0], Locations: []string{"c18loc"}, Cache: names[0]},
@@ -193,7 +207,7 @@ func execC18e2e(sc c18Scenario) *vstat.Outcome {
 			delete(cached[1], key)
 		}
 	}
-	purgedFresh, reqAfterPurge, purgeDuringFetch := 0, 0, 0
+	purgedFresh, reqAfterPurge, purgeDuringFetch, purgeUnderTraffic := 0, 0, 0, 0
 	lastPurged := [2]map[int]bool{{}, {}}
 	for i, op := range sc.Ops {
 		what := fmt.Sprintf("op %d %+v", i, op)
@@ -239,6 +253,61 @@ func execC18e2e(sc c18Scenario) *vstat.Outcome {
 				}
 			}
 			applyPurge(op.Key, op.Cache, op.Wrong)
+		case "purge-under-traffic":
+			// a stored entry is purged while clients keep asking for it; once the purge has
+			// completed nobody may be served the purged response any more
+			uri := fmt.Sprintf("/c18-%d/traffic-%d", n, i)
+			first := do(c18Cl, reqSpec{Method: "GET", Addr: addrs[0], Host: host, URI: uri, Header: http.Header{"X-Spec": []string{spec}}})
+			second := do(c18Cl, reqSpec{Method: "GET", Addr: addrs[0], Host: host, URI: uri, Header: http.Header{"X-Spec": []string{spec}}})
+			if first.Err != "" || second.Err != "" || second.Header.Get("X-Status") != "hit" {
+				out.Violate("C18", "request", "%s: priming failed (%q %q, X-Status %q)", what, first.Err, second.Err, second.Header.Get("X-Status"))
+				continue
+			}
+			purged := first.Header.Get("X-Serial")
+			stop := make(chan struct{})
+			var wg sync.WaitGroup
+			for j := 0; j < 4; j++ {
+				wg.Add(1)
+				go func() {
+					defer wg.Done()
+					for {
+						select {
+						case <-stop:
+							return
+						default:
+						}
+						_ = do(c18Cl, reqSpec{Method: "GET", Addr: addrs[0], Host: host, URI: uri, Header: http.Header{"X-Spec": []string{spec}}})
+					}
+				}()
+			}
+			time.Sleep(5 * time.Millisecond)
+			q := url.Values{}
+			q.Set("key", "GET "+host+" "+wireURI(uri))
+			if op.Cache != "" {
+				q.Set("cache", names[0])
+			}
+			req, _ := http.NewRequest("DELETE", "http://"+c18Admin+"/cache?"+q.Encode(), nil)
+			resp, err := c18Cl.Do(req)
+			if err == nil {
+				_, _ = io.Copy(io.Discard, resp.Body)
+				resp.Body.Close()
+			}
+			time.Sleep(10 * time.Millisecond)
+			close(stop)
+			wg.Wait()
+			if err != nil || resp.StatusCode != 204 {
+				out.Violate("C18", "admin", "%s: admin purge failed: %v", what, err)
+				continue
+			}
+			// the purge completed a while ago
+			for j := 0; j < 2; j++ {
+				r := do(c18Cl, reqSpec{Method: "GET", Addr: addrs[0], Host: host, URI: uri, Header: http.Header{"X-Spec": []string{spec}}})
+				if r.Err == "" && r.Header.Get("X-Serial") == purged {
+					out.Violate("C18", "purged-entry-served", "%s: the entry (upstream answer #%s) was purged while clients kept asking for the key, the purge completed, and request %d afterwards is still answered with that purged response (X-Status %q)", what, purged, j, r.Header.Get("X-Status"))
+					break
+				}
+			}
+			purgeUnderTraffic++
 		case "purge-during-fetch":
 			// a slow fetch on a dedicated key with two waiters; the purge must return long before the fetch ends
 			uri := fmt.Sprintf("/c18-%d/slow-%d", n, i)
@@ -289,7 +358,10 @@ func execC18e2e(sc c18Scenario) *vstat.Outcome {
 			_ = fmt.Sprint
 		}
 	}
-	out.NonTrivial = purgedFresh > 0 && reqAfterPurge > 0 || purgeDuringFetch > 0
+	out.NonTrivial = purgedFresh > 0 && reqAfterPurge > 0 || purgeDuringFetch > 0 || purgeUnderTraffic > 0
+	if purgeUnderTraffic > 0 {
+		out.Class("purge_under_traffic_with_slow_store_delete")
+	}
 	if purgedFresh > 0 {
 		out.Class("purged_fresh_entry")
 	}
@@ -311,4 +383,15 @@ func execC18e2e(sc c18Scenario) *vstat.Outcome {
 
 func TestC18Admin(t *testing.T) {
 	vstat.Run(t, "C18", "netw", genC18e2e, execC18e2e)
+}
+
+// slowDeleteStore: an in-memory store whose Delete takes a while, like a remote store's
+type slowDeleteStore struct {
+	rtStore
+	delay time.Duration
+}
+
+func (s *slowDeleteStore) Delete(key []byte) error {
+	time.Sleep(s.delay)
+	return s.rtStore.Delete(key)
 }
